@@ -27,7 +27,7 @@ class C18(Check):
                "the call",
                "messages above 3000 octets are checked by the direct oracles only (no 64 KiB literals in model cases)"]
     trusted = ["label-list view of names; labels.go equal = equality of lower-cased labels on the strings UnpackDomainName produces"]
-    shard_size = 150
+    shard_size = 170
 
     def nontrivial(self, c):
         a = c["args"]
